@@ -132,7 +132,8 @@ pub fn probe(run: &mut Run, lines: &mut OskLines, id: &str, d: &Difficulty, map:
     if nonfinite > 0 {
         run.fail(
             "oracle:evaluator-output-not-finite-nonneg",
-            "",
+            // known finding `curve-nan-vertex`: some slider's curve (as osu! computes it) has a NaN vertex
+            if crate::common::map_has_nonfinite_curve(map, true) { "curve-nan-vertex" } else { "" },
             id,
             format!("{nonfinite} evaluator outputs (aim / speed / rhythm / flashlight) are negative, infinite or NaN"),
             format!("osu::verif::skill_probe on case {id}"),
